@@ -92,7 +92,7 @@ class GrowWorld(grow_index.IndexOps, grow_hier.HierOps, grow_frame.FrameOps, Wor
             elif k == 'fr':
                 menu += [('fr_grow', 6), ('fr_derive', 3 if len(self.ents) < pool_max else 0)]
         menu += [('check', 2 + 6 * self.config['p_read']), ('new', 1 if len(self.ents) < pool_max else 0),
-                 ('drop', 0.3)]
+                 ('drop', 0.3), ('caller_write', 1.0 if self._caller_arrays else 0)]
         what = ch.weighted(menu)
         gen = getattr(self, 'gen_' + what)
         op = gen(ch) if what != 'new' else self.gen_new(ch, kinds)
@@ -113,6 +113,27 @@ class GrowWorld(grow_index.IndexOps, grow_hier.HierOps, grow_frame.FrameOps, Wor
         if not hs:
             return None
         return {'op': 'check', 'h': ch.choice(hs)}
+
+    def gen_caller_write(self, ch):
+        return {'op': 'caller_write', 'arr': ch.randint(0, len(self._caller_arrays) - 1), 'pos': ch.randint(0, 5)}
+
+    def do_caller_write(self, op, dec_):
+        '''The caller writes into an array it earlier passed to a growth call (a second party acting later).'''
+        if not self._caller_arrays:
+            return 'skip'
+        a, vals = self._caller_arrays[op['arr'] % len(self._caller_arrays)]
+        if not a.flags.writeable or a.size == 0:
+            return 'readonly'
+        pos = op.get('pos', 0) % a.size
+        k = a.dtype.kind
+        try:
+            a.flat[pos] = (not bool(a.flat[pos])) if k == 'b' else (987654 if k in 'iu' else 987654.5 if k == 'f' else 'ZZ')
+        except Exception:
+            return 'failed'
+        self.fault('caller-writes-to-retained-buffer')
+        for h in self.handles():
+            self.check_ent(self.ents[h], op)
+        return 'written'
 
     def gen_drop(self, ch):
         hs = self.handles()
